@@ -846,17 +846,23 @@ func genOracleSession(rng *rand.Rand, st *Stats) []string {
 			tid := len(ref.txns)
 			upd := rng.Intn(5) != 0
 			if managed {
-				rts := maxTs
+				// read timestamps anywhere between discardTs and the largest timestamp in use:
+				// commit timestamps are caller-chosen and NOT monotonic in managed mode
+				lo, hi := ref.discardTs, maxTs
+				if hi < lo {
+					hi = lo
+				}
+				rts := hi
 				switch rng.Intn(4) {
 				case 0:
-					if rts > 0 {
-						rts -= uint64(rng.Intn(int(min64(rts, 3)) + 1))
-					}
+					rts = lo + uint64(rng.Int63n(int64(hi-lo)+1))
 				case 1:
-					rts += uint64(rng.Intn(3))
+					rts = hi + uint64(rng.Intn(3))
+				case 2:
+					rts = lo + uint64(rng.Int63n(int64(hi-lo)+1))/2
 				}
-				if rts < ref.discardTs && rng.Intn(4) != 0 {
-					rts = ref.discardTs // mostly respect the API contract
+				if rng.Intn(12) == 0 && rts > 0 {
+					rts-- // occasionally below discardTs: the API contract is broken for this txn
 				}
 				ops = append(ops, fmt.Sprintf("beginat %d %d %d", tid, rts, b01(upd)))
 				ref.txns = append(ref.txns, &refTxn{readTs: rts, update: upd, writes: map[uint64]bool{}, state: rtActive})
@@ -889,23 +895,36 @@ func genOracleSession(rng *rand.Rand, st *Stats) []string {
 			tid := withWrites[rng.Intn(len(withWrites))]
 			t := ref.txns[tid]
 			if managed {
-				ts := maxTs + uint64(rng.Intn(3))
-				if rng.Intn(6) == 0 && ts > 0 {
-					ts -= uint64(rng.Intn(int(min64(ts, 3)) + 1))
+				lo, hi := ref.lastCleanup, maxTs
+				if lo == 0 {
+					lo = 1
 				}
-				if ts == 0 {
-					ts = 1
+				if hi < lo {
+					hi = lo
+				}
+				var ts uint64
+				switch rng.Intn(3) {
+				case 0:
+					ts = hi + 1 + uint64(rng.Intn(2)) // above everything
+				case 1:
+					ts = lo + uint64(rng.Int63n(int64(hi-lo)+1)) // anywhere: non-monotonic
+				default:
+					ts = lo + uint64(rng.Intn(4)) // just above the discard bound
+				}
+				if rng.Intn(15) == 0 && ts > 1 {
+					ts = lo - 1 // below lastCleanupTs: would assert (refused by the executor)
+					if ts == 0 {
+						ts = 1
+					}
 				}
 				ops = append(ops, fmt.Sprintf("commitat %d %d", tid, ts))
 				if ref.conflictSpec(t) {
 					t.state = rtClosing
-				} else if !(detect && ts < ref.lastCleanup) || !detect {
-					if ts >= ref.lastCleanup {
-						ref.commits = append(ref.commits, &refCommit{ts: ts, writes: copySet(t.writes), done: true})
-						t.state = rtClosed
-						if ts > maxTs {
-							maxTs = ts
-						}
+				} else if ts >= ref.lastCleanup {
+					ref.commits = append(ref.commits, &refCommit{ts: ts, writes: copySet(t.writes), done: true})
+					t.state = rtClosed
+					if ts > maxTs {
+						maxTs = ts
 					}
 				}
 			} else {
@@ -1462,7 +1481,147 @@ func genTxn(rng *rand.Rand, n int, st *Stats) []string {
 	return ops
 }
 
+// genTxnManagedSession: a managed DB (OpenManaged). Read and commit timestamps are chosen by the
+// caller and are NOT monotonic: commits land below earlier commits and between the read timestamps
+// of open transactions. Constraints kept (badger's documented contract): every commit timestamp is
+// >= discardTs, unique, and larger than every version already written for each of its keys.
+func genTxnManagedSession(rng *rand.Rand, st *Stats) []string {
+	detect := rng.Intn(10) != 0
+	ops := []string{fmt.Sprintf("reset %d 1", b01(detect))}
+	nkeys := 2 + rng.Intn(3)
+	maxOpen := 2 + rng.Intn(4)
+	type gt struct {
+		update bool
+		open   bool
+		readTs uint64
+		keys   map[string]bool
+	}
+	var txns []*gt
+	lastVer := map[string]uint64{}
+	used := map[uint64]bool{}
+	var hi, discard uint64 = 1, 0
+	val := 0
+	nops := 20 + rng.Intn(60)
+	for i := 0; i < nops; i++ {
+		var open []int
+		for tid, t := range txns {
+			if t.open {
+				open = append(open, tid)
+			}
+		}
+		r := rng.Intn(100)
+		switch {
+		case (r < 16 || len(open) == 0) && len(open) < maxOpen:
+			upd := rng.Intn(6) != 0
+			lo := discard
+			top := hi
+			if top < lo {
+				top = lo
+			}
+			rts := top
+			switch rng.Intn(3) {
+			case 0:
+				rts = lo + uint64(rng.Int63n(int64(top-lo)+1))
+			case 1:
+				rts = top + uint64(rng.Intn(2))
+			}
+			txns = append(txns, &gt{update: upd, open: true, readTs: rts, keys: map[string]bool{}})
+			ops = append(ops, fmt.Sprintf("beginat %d %d %d", len(txns)-1, rts, b01(upd)))
+			if rts > hi {
+				hi = rts
+			}
+		case r < 40 && len(open) > 0:
+			tid := open[rng.Intn(len(open))]
+			ops = append(ops, fmt.Sprintf("get %d %s", tid, txnKeys[rng.Intn(nkeys)]))
+		case r < 62 && len(open) > 0:
+			tid := open[rng.Intn(len(open))]
+			k := txnKeys[rng.Intn(nkeys)]
+			val++
+			if rng.Intn(8) == 0 {
+				ops = append(ops, fmt.Sprintf("del %d %s", tid, k))
+			} else {
+				ops = append(ops, fmt.Sprintf("set %d %s %02x", tid, k, val%256))
+			}
+			if txns[tid].update {
+				txns[tid].keys[k] = true
+			}
+		case r < 66 && len(open) > 0:
+			ops = append(ops, fmt.Sprintf("iter %d", open[rng.Intn(len(open))]))
+		case r < 88 && len(open) > 0:
+			tid := open[rng.Intn(len(open))]
+			t := txns[tid]
+			// lowest admissible timestamp: above the versions of its keys, >= discardTs, >= 1
+			low := discard
+			if low < 1 {
+				low = 1
+			}
+			for k := range t.keys {
+				if lastVer[k]+1 > low {
+					low = lastVer[k] + 1
+				}
+			}
+			ts := low + uint64(rng.Intn(3))
+			if rng.Intn(3) == 0 {
+				ts = hi + 1 + uint64(rng.Intn(2))
+				if ts < low {
+					ts = low
+				}
+			}
+			for used[ts] {
+				ts++
+			}
+			used[ts] = true
+			for k := range t.keys {
+				if ts > lastVer[k] {
+					lastVer[k] = ts
+				}
+			}
+			if ts > hi {
+				hi = ts
+			}
+			ops = append(ops, fmt.Sprintf("commitat %d %d", tid, ts))
+			t.open = false
+		case r < 93 && len(open) > 0:
+			tid := open[rng.Intn(len(open))]
+			ops = append(ops, fmt.Sprintf("discard %d", tid))
+			txns[tid].open = false
+		case r < 97:
+			// SetDiscardTs, mostly within the contract (not above the read ts of an open update txn)
+			ts := discard + uint64(rng.Intn(3))
+			if rng.Intn(4) != 0 {
+				for _, t := range txns {
+					if t.open && t.update && t.readTs < ts {
+						ts = t.readTs
+					}
+				}
+			}
+			if ts < discard {
+				ts = discard
+			}
+			ops = append(ops, fmt.Sprintf("setdiscard %d", ts))
+			discard = ts
+		case len(txns) > 0:
+			tid := rng.Intn(len(txns))
+			ops = append(ops, []string{fmt.Sprintf("get %d 61", tid), fmt.Sprintf("commit %d", tid), fmt.Sprintf("begin %d 1", len(txns)), fmt.Sprintf("discard %d", tid)}[rng.Intn(4)])
+			if strings.HasPrefix(ops[len(ops)-1], "discard") {
+				txns[tid].open = false
+			}
+		}
+	}
+	for tid, t := range txns {
+		if t.open {
+			ops = append(ops, fmt.Sprintf("discard %d", tid))
+		}
+	}
+	st.Inc(fmt.Sprintf("txn-session:managed,detect=%v", detect))
+	st.Inc("txn-session-len:" + sizeBucket(len(ops)))
+	return ops
+}
+
 func genTxnSession(rng *rand.Rand, st *Stats) []string {
+	if params["mode"] != "normal" && rng.Intn(3) == 0 {
+		return genTxnManagedSession(rng, st)
+	}
 	detect := rng.Intn(10) != 0
 	ops := []string{fmt.Sprintf("reset %d", b01(detect))}
 	nkeys := 2 + rng.Intn(3)
@@ -1564,6 +1723,7 @@ type dbVersion struct {
 type dbSession struct {
 	db      *badger.DB
 	v       *badger.VerifOracle
+	managed bool
 	detect  bool
 	txns    []*dbTxn
 	ref     *refOracle
@@ -1589,11 +1749,14 @@ func obs(v *string) string {
 	return "v=" + *v
 }
 
-func openTxnDB(detect bool) (*badger.DB, error) {
+func openTxnDB(detect, managed bool) (*badger.DB, error) {
 	opt := badger.DefaultOptions("").WithInMemory(true).WithDetectConflicts(detect).
 		WithLoggingLevel(badger.ERROR).WithMemTableSize(1 << 20).WithValueThreshold(1 << 10).
 		WithNumCompactors(2).WithNumMemtables(2).WithCompression(options.None).WithBlockCacheSize(0).WithIndexCacheSize(0).
 		WithMetricsEnabled(false)
+	if managed {
+		return badger.OpenManaged(opt)
+	}
 	return badger.Open(opt)
 }
 
@@ -1618,7 +1781,7 @@ func execTxn(ops []string, st *Stats) (outs []string, oracle []string) {
 		}
 		leaked := false
 		for _, t := range s.txns {
-			if !t.closed && t.readTs >= s.v.State().ReadDoneUntil {
+			if !t.closed && (s.managed || t.readTs >= s.v.State().ReadDoneUntil) {
 				t.txn.Discard()
 			} else if !t.closed || t.leaked {
 				leaked = true
@@ -1643,18 +1806,19 @@ func execTxn(ops []string, st *Stats) (outs []string, oracle []string) {
 			continue
 		}
 		if w[0] == "reset" {
-			if len(w) != 2 || (w[1] != "0" && w[1] != "1") {
+			if (len(w) != 2 && len(w) != 3) || (w[1] != "0" && w[1] != "1") || (len(w) == 3 && w[2] != "0" && w[2] != "1") {
 				outs[i] = "bad-op"
 				continue
 			}
 			closeSession()
-			db, err := openTxnDB(w[1] == "1")
+			managed := len(w) == 3 && w[2] == "1"
+			db, err := openTxnDB(w[1] == "1", managed)
 			if err != nil {
 				panic(err)
 			}
-			s = &dbSession{db: db, v: badger.VerifOracleOf(db), detect: w[1] == "1",
+			s = &dbSession{db: db, v: badger.VerifOracleOf(db), detect: w[1] == "1", managed: managed,
 				history: map[string][]dbVersion{}, fp: map[uint64]string{}}
-			s.ref = newRefOracle(false, s.detect, 0)
+			s.ref = newRefOracle(managed, s.detect, 0)
 			orcBarrier(s.v)()
 			outs[i] = "ok " + dumpOracle(s.v.State(), keyName)
 			st.Inc("op:reset")
@@ -1662,6 +1826,32 @@ func execTxn(ops []string, st *Stats) (outs []string, oracle []string) {
 		}
 		if s == nil || len(w) < 2 {
 			outs[i] = "bad-op"
+			continue
+		}
+		if w[0] == "setdiscard" && len(w) == 2 {
+			ts, err := parseU(w[1])
+			if err != nil {
+				outs[i] = "bad-op"
+				continue
+			}
+			st.Inc("op:setdiscard")
+			res := "skip"
+			if s.managed {
+				if cur := s.v.State(); s.detect && ts < cur.LastCleanupTs {
+					res = "assert" // AssertTrue(maxReadTs >= lastCleanupTs) would kill the process
+				} else {
+					s.db.SetDiscardTs(ts)
+					s.ref.discardTs = ts
+					for _, t := range s.ref.txns {
+						if t.state == rtActive && t.update && ts > t.readTs {
+							t.contract = false
+						}
+					}
+					res = "ok"
+				}
+			}
+			orcBarrier(s.v)()
+			outs[i] = res + " " + dumpOracle(s.v.State(), keyName)
 			continue
 		}
 		tid64, err := parseU(w[1])
@@ -1682,8 +1872,97 @@ func execTxn(ops []string, st *Stats) (outs []string, oracle []string) {
 			return kb
 		}
 		switch {
+		case w[0] == "beginat" && len(w) == 4 && (w[3] == "0" || w[3] == "1"):
+			rts, err := parseU(w[2])
+			if err != nil {
+				outs[i] = "bad-op"
+				continue
+			}
+			if !s.managed || tid != len(s.txns) {
+				break
+			}
+			nt := &dbTxn{update: w[3] == "1", pend: map[string]*string{}, readLog: map[string]string{}, readTs: rts}
+			nt.txn = s.db.NewTransactionAt(rts, nt.update)
+			nt.ref = &refTxn{readTs: rts, update: nt.update, writes: map[uint64]bool{}, state: rtActive, contract: s.ref.discardTs <= rts}
+			s.ref.txns = append(s.ref.txns, nt.ref)
+			s.txns = append(s.txns, nt)
+			res = fmt.Sprintf("r=%d", rts)
+		case w[0] == "commitat" && len(w) == 3:
+			ts, err := parseU(w[2])
+			if err != nil {
+				outs[i] = "bad-op"
+				continue
+			}
+			if !s.managed || t == nil {
+				break
+			}
+			if t.closed {
+				res = "err=discarded"
+				break
+			}
+			before := s.v.State()
+			if !t.update || len(t.pend) == 0 {
+				_ = t.txn.CommitAt(ts, nil)
+				t.closed = true
+				t.ref.state = rtClosed
+				res = "ok-empty"
+				break
+			}
+			// refuse the call when AssertTrue(ts >= lastCleanupTs) would fire: that is when the
+			// production hasConflict (evaluated on the dumped committedTxns) finds nothing
+			implConflict := false
+			for _, c := range before.Committed {
+				if c.Ts <= t.readTs {
+					continue
+				}
+				for _, k := range c.Keys {
+					for _, r := range t.ref.reads {
+						if r == k {
+							implConflict = true
+						}
+					}
+				}
+			}
+			if !implConflict && ts < before.LastCleanupTs {
+				res = "assert"
+				break
+			}
+			wantConflict := s.ref.conflictSpec(t.ref)
+			cerr := t.txn.CommitAt(ts, nil)
+			t.closed = true
+			t.ref.state = rtClosed
+			after := s.v.State()
+			switch {
+			case cerr == badger.ErrConflict:
+				res = "conflict"
+				st.Inc("txn:managed-conflict")
+				if !sameCommitted(before, after) {
+					fail(i, "[conflict-trace] a rejected commit changed nextTxnTs/committedTxns")
+				}
+				if !wantConflict && t.ref.contract {
+					fail(i, fmt.Sprintf("[false-conflict] ErrConflict although no transaction committed above read timestamp %d wrote a key it read", t.readTs))
+				}
+			case cerr != nil:
+				res = "err=" + cerr.Error()
+			default:
+				res = fmt.Sprintf("ok ts=%d", ts)
+				st.Inc("txn:managed-commit-ok")
+				if wantConflict && t.ref.contract {
+					fail(i, fmt.Sprintf("[conflict-missed] CommitAt(%d) accepted although a transaction with a commit timestamp above its read timestamp %d wrote a key it read (managed mode, discardTs <= readTs held)", ts, t.readTs))
+				}
+				s.ref.commits = append(s.ref.commits, &refCommit{ts: ts, writes: copySet(t.ref.writes), done: true})
+				var ks []string
+				for k := range t.pend {
+					ks = append(ks, k)
+				}
+				sort.Strings(ks)
+				for _, k := range ks {
+					s.history[k] = append(s.history[k], dbVersion{ts: ts, val: t.pend[k]})
+					sort.SliceStable(s.history[k], func(a, b int) bool { return s.history[k][a].ts < s.history[k][b].ts })
+				}
+			}
 		case w[0] == "begin" && len(w) == 3 && (w[2] == "0" || w[2] == "1"):
-			if tid != len(s.txns) {
+			if s.managed || tid != len(s.txns) {
 				break
 			}
 			nt := &dbTxn{update: w[2] == "1", pend: map[string]*string{}, readLog: map[string]string{}}
@@ -1828,7 +2107,7 @@ func execTxn(ops []string, st *Stats) (outs []string, oracle []string) {
 				fail(i, fmt.Sprintf("[snapshot-iter] iterator yielded %v, snapshot at %d has %v", items, t.readTs, want))
 			}
 		case w[0] == "commit" && len(w) == 2:
-			if t == nil {
+			if t == nil || s.managed {
 				break
 			}
 			if t.closed {
@@ -1907,7 +2186,7 @@ func execTxn(ops []string, st *Stats) (outs []string, oracle []string) {
 			if t == nil || t.closed {
 				break
 			}
-			if rd := s.v.State().ReadDoneUntil; t.readTs < rd {
+			if rd := s.v.State().ReadDoneUntil; !s.managed && t.readTs < rd {
 				res = "assert"
 				fail(i, fmt.Sprintf("[readmark-ahead-of-open-txn] readMark.DoneUntil=%d although transaction %d with readTs %d is open", rd, tid, t.readTs))
 				t.closed = true
@@ -1925,11 +2204,11 @@ func execTxn(ops []string, st *Stats) (outs []string, oracle []string) {
 		orcBarrier(s.v)()
 		fin := s.v.State()
 		for tid2, t2 := range s.txns {
-			if !t2.closed && t2.readTs < fin.ReadDoneUntil {
+			if !s.managed && !t2.closed && t2.readTs < fin.ReadDoneUntil {
 				fail(i, fmt.Sprintf("[readmark-ahead-of-open-txn] readMark.DoneUntil=%d although transaction %d with readTs %d is open", fin.ReadDoneUntil, tid2, t2.readTs))
 			}
 		}
-		if fin.LastCleanupTs > fin.ReadDoneUntil {
+		if !s.managed && fin.LastCleanupTs > fin.ReadDoneUntil {
 			fail(i, fmt.Sprintf("[cleanup-ahead-of-readmark] lastCleanupTs=%d > readMark.DoneUntil=%d", fin.LastCleanupTs, fin.ReadDoneUntil))
 		}
 		outs[i] = res + " " + dumpOracle(fin, keyName)
